@@ -848,7 +848,12 @@ _dbus_loop_iterate (DBusLoop     *loop,
                   if (initial_serial != loop->callback_list_serial ||
                       loop->depth != orig_depth)
                     {
-                      if (any_oom)
+                      /* the callback may have removed the last watch
+                       * for this fd (and closed it): then there is
+                       * nothing left to refresh */
+                      if (any_oom &&
+                          _dbus_hash_table_lookup_pollable (loop->watches,
+                                                            ready_fds[i].fd) != NULL)
                         refresh_watches_for_fd (loop, NULL, ready_fds[i].fd);
 
                       goto next_iteration;
